@@ -353,6 +353,24 @@ ENUM_TABLE_EXTRA = {"ControlFlow": ["Continue", "Break"], "Poll": ["Ready", "Pen
 
 # ---------------------------------------------------------------------------------------------
 # higher-order std combinators: the closure bodies are taken from the dump
+def fork_discr(I, st, opt):
+    """[(is_some, state)] for an Option value whose discriminant may be symbolic"""
+    d = opt.discr
+    if isinstance(d, int):
+        return [(d == 1, st)]
+    d = z3.simplify(d)
+    if z3.is_int_value(d):
+        return [(d.as_long() == 1, st)]
+    res = []
+    for val in (1, 0):
+        c = d == val
+        if I.feasible(st, c):
+            s2 = st.fork()
+            s2.assume(c)
+            res.append((val == 1, s2))
+    return res
+
+
 def call_closure(I, st, caller, closure_ty, closure_val, cargs):
     body = I.prog.find_closure(closure_ty)
     if body is None:
@@ -391,6 +409,56 @@ def generic_args(f):
 
 def hof_models(I, st, caller, func, args, argtys, dest_ty):
     f = strip_std_paths(func)
+    mc = re.match(r"^<(\{closure@.*\}) as (Fn|FnMut|FnOnce)<.*>>::(call|call_mut|call_once)$", f)
+    if mc:
+        cv = args[0]
+        cl = deref_all(I, st, cv) if isinstance(cv, Ref) else cv
+        tup = args[1]
+        cargs = list(tup.fields) if isinstance(tup, Agg) and tup.kind == "tuple" else [tup]
+        return call_closure(I, st, caller, mc.group(1), cl, cargs)
+    # (a..).map_while(f).any(g): lazily, one element per loop visit, bounded by the interpreter's unroll count
+    m = re.match(r"^<RangeFrom<(u64|usize|u32)> as Iterator>::map_while::<", f)
+    if m:
+        ga = generic_args(f)
+        return ret(st, Agg("iter", "map_while_from", (args[0].fields[0], (ga[-1], args[1]))))
+    m = re.match(r"^<MapWhile<RangeFrom<.*>, .*> as Iterator>::any::<", f)
+    if m:
+        it = deref_all(I, st, args[0])
+        start, (cty, cval) = it.fields
+        pty = generic_args(f)[-1]
+        outs = []
+        work = [(st, 0)]
+        while work:
+            s0, k = work.pop()
+            if k >= I.unroll:
+                outs.append(Outcome("exhausted", None, s0, "map_while/any over an unbounded range: more than %d elements" % I.unroll))
+                continue
+            for o in call_closure(I, s0, caller, cty, cval, [z3.simplify(start + k)]):
+                if o.kind != "return":
+                    outs.append(o)
+                    continue
+                opt = o.value
+                for present, s1 in fork_discr(I, o.state, opt):
+                    if not present:
+                        outs.append(Outcome("return", z3.BoolVal(False), s1))
+                        continue
+                    for o2 in call_closure(I, s1, caller, pty, args[1], [opt.payloads[1][0]]):
+                        if o2.kind != "return":
+                            outs.append(o2)
+                            continue
+                        b = o2.value
+                        if I.feasible(o2.state, b):
+                            s2 = o2.state.fork()
+                            s2.assume(b)
+                            outs.append(Outcome("return", z3.BoolVal(True), s2))
+                        if I.feasible(o2.state, z3.Not(b)):
+                            s3 = o2.state.fork()
+                            s3.assume(z3.Not(b))
+                            work.append((s3, k + 1))
+        return outs
+    if re.match(r"^(core::bool::<impl bool>|bool)::then_some::<", f):
+        b = args[0]
+        return ret(st, EnumV("Option", z3.If(b, 1, 0) if z3.is_expr(b) else (1 if b else 0), {1: (args[1],)}))
     m0 = re.match(r"^Result::<.*>::or_else::<", f)
     if m0:
         v = deref_all(I, st, args[0])
